@@ -221,7 +221,13 @@ func GenUpdateDoc(t *rapid.T, label string, schema models.IndexSchema, o History
 	if o.ExtraFields {
 		n := rapid.IntRange(0, 2).Draw(t, label+"-nextra")
 		for i := 0; i < n; i++ {
-			key := rapid.SampledFrom([]string{"extra", "note", "k1", "k2", "marker"}).Draw(t, fmt.Sprintf("%s-ek%d", label, i))
+			// (a field whose NAME contains dots is a top-level field like any other: the merge is shallow and
+			// never walks into nested maps, so removing "meta.k" leaves the map meta alone)
+			key := rapid.SampledFrom([]string{"extra", "note", "k1", "k2", "marker", "meta.k", "meta.name", "org.unit", "org.unit.zip"}).Draw(t, fmt.Sprintf("%s-ek%d", label, i))
+			if strings.Contains(key, ".") {
+				d[key] = model.DeleteValue
+				continue
+			}
 			if rapid.IntRange(0, 3).Draw(t, fmt.Sprintf("%s-edel%d", label, i)) == 0 {
 				d[key] = model.DeleteValue
 			} else {
